@@ -414,6 +414,85 @@ func c08Run(w *W) {
 		}
 	}
 	w.Probe("answer-on-received-message-object")
+	c08Newcomer(w, topo, tran, members, listeners, &all)
+}
+
+// c08Newcomer: a member joins while traffic is passing (it dials a member
+// that listens - the hub of a star, any listening member of a bus - at the
+// moment that member and its peers are sending). Once things have settled it
+// is a member like the others: the next message of the member it joined
+// reaches it, once.
+func c08Newcomer(w *W, topo, tran string, members []*c8Member, listeners map[*c8Member]mangos.Listener, all *[]mangos.Socket) {
+	if w.Failed() || w.Choose(simrt.SProg, 2) != 0 {
+		return
+	}
+	var host *c8Member
+	for _, m := range members {
+		if listeners[m] != nil && m.sender && m.addr != "" {
+			host = m
+			break
+		}
+	}
+	if host == nil {
+		return
+	}
+	kind := "bus"
+	if strings.HasPrefix(topo, "star") {
+		kind = "star"
+	}
+	// traffic through the host while the newcomer attaches
+	var calls []*Call
+	for _, m := range members {
+		m := m
+		if !m.sender {
+			continue
+		}
+		calls = append(calls, w.Do("sender "+m.name+" (while a member joins)", func() (interface{}, error) {
+			for i := 0; i < 6; i++ {
+				if err := SendOwn(m.s, []byte(fmt.Sprintf("busy:%s:%d", m.name, i))); err != nil {
+					return nil, err
+				}
+				simrt.Yield()
+			}
+			return nil, nil
+		}))
+	}
+	for k := w.Choose(simrt.SProg, 40); k > 0; k-- {
+		simrt.Yield()
+	}
+	n := &c8Member{name: "N", s: w.Sock(kind), expect: map[string]bool{}}
+	*all = append(*all, n.s)
+	n.r = c2StartReceiver(w, "N", n.s, 300*time.Millisecond)
+	if err := w.DialOn(n.s, host.addr); err != nil {
+		w.Failf("HARNESS/dial", "%v", err)
+		return
+	}
+	for _, c := range calls {
+		if !c.Wait(10*time.Second) || c.Err != nil {
+			w.Failf("C08/send-failed", "%s: returned=%v err=%v", c.Label, c.Returned(), c.Err)
+			return
+		}
+	}
+	w.Sleep(200 * time.Millisecond)
+	w.Settle()
+	marker := "joined:" + host.name
+	if err := SendOwn(host.s, []byte(marker)); err != nil {
+		w.Failf("C08/send-failed", "%s after a member joined: %v", host.name, err)
+		return
+	}
+	w.Sleep(500 * time.Millisecond)
+	w.Settle()
+	cnt := 0
+	for _, g := range n.r.got {
+		if g == marker {
+			cnt++
+		}
+	}
+	if cnt != 1 {
+		w.Failf("C08/newcomer-not-served:"+topo, "a %s member joined %s over %s while traffic was passing; %v later %s sent %q: the newcomer received it %d times (it has received %d messages in all)", kind, host.name, tran, 200*time.Millisecond, host.name, marker, cnt, len(n.r.got))
+		return
+	}
+	w.Probe("member-joined-during-traffic")
 }
 
 func init() {
